@@ -184,6 +184,7 @@ class QuotientWorld(Scenario):
         return rows
 
     # ------------------------------------------------------------------ apply
+    try_refusals = False  # C14/C19: also issue adds that must be refused (full table), then re-check their oracle
     hang_is_violation = False  # termination is C04's clause; elsewhere a call that does not return ends the run's claim
 
     def apply(self, step):
@@ -215,7 +216,18 @@ class QuotientWorld(Scenario):
             if op == "add":
                 new = h not in self.model
                 if new and not self.will_autoresize() and len(self.model) >= f.size:
-                    return "skip"  # legitimately raises: table full and it will not grow
+                    if not self.try_refusals:
+                        return "skip"  # legitimately raises: table full and it will not grow
+                    # the documented refusal: must raise QuotientFilterError and change nothing
+                    from probables.exceptions import QuotientFilterError
+
+                    st, v = self.call(lambda: f.add_alt(h), f"add_alt({h:#x}) on a full table")
+                    ctx.fault("add_refused_table_full")
+                    if st != "exc" or not isinstance(v, QuotientFilterError):
+                        raise Violation("refusal_missing", f"add of a new hash to a full table that cannot grow returned "
+                                                           f"{v!r} instead of raising QuotientFilterError", self.full_sig())
+                    self.observe(step)
+                    return {"r": "refused"}
                 if new and cfg["avoid_full"] and not self.will_autoresize() and len(self.model) + 1 >= f.size:
                     return "skip"  # this run stays clear of the 100%-full table
                 if self.will_autoresize() and f.quotient >= Q_MAX + 2:
